@@ -335,6 +335,17 @@ def gen_cases(seed, count, exhaustive=True):
                      (b"'\\x4Z'", b"\x40"), (b"''''", b"'"), (b"'\"'", b"\""), (b"'a\nb'", b"a\nb"),
                      (b"'\xc3\xa9'", b"\xc3\xa9"), (b"'\x00'", b"\x00")]:
         cases.append(("str-alt", t_str(val), src))
+    # the decoding table, one escape at a time: '<a>\c<b>' for every ASCII c, and \xHH in both digit cases
+    named = {0x6E: 10, 0x74: 9, 0x72: 13, 0x30: 0, 0x61: 7, 0x62: 8, 0x66: 12, 0x76: 11, 0x65: 27, 0x5C: 92, 0x27: 39,
+             0x22: 34}
+    for c in range(1, 128):
+        if c == 0x78:
+            continue
+        val = bytes([named[c]]) if c in named else bytes([0x5C, c])
+        cases.append(("str-escape", t_str(b"a" + val + b"b"), b"'a\\" + bytes([c]) + b"b'"))
+    for h in range(256):
+        cases.append(("str-escape", t_str(bytes([h])), ("'\\x%02X'" % h).encode()))
+        cases.append(("str-escape", t_str(b"a" + bytes([h]) + b"z"), ("'a\\x%02xz'" % h).encode()))
     for src in [b"'abc", b"'abc\\", b"'\\x", b"'\\x4", b"'a\\", b"'\xff'", b"'\xc3'", b"'\xed\xa0\x80'", b"'a'''"]:
         cases.append(("raw", "-", src))
     if exhaustive:
